@@ -64,6 +64,19 @@ impl Committee {
         .with_hash();
         Self { keys, weights: weights.to_vec(), genesis, schedule, outsider }
     }
+    /// "3,1n,1,1n": a trailing n marks a member that is not leader-eligible (irrelevant for quorums: they are over the TOTAL weight).
+    pub fn from_spec(spec: &str, seed: u64) -> Self {
+        let nonleader: Vec<bool> = spec.split(',').map(|x| x.ends_with('n')).collect();
+        let weights: Vec<u64> = spec.split(',').map(|x| x.trim_end_matches('n').parse().unwrap()).collect();
+        let mut c = Self::new(&weights, seed);
+        if nonleader.iter().any(|x| *x) {
+            let infos: Vec<validator::ValidatorInfo> = c.keys.iter().zip(&weights).zip(&nonleader).map(|((k, w), nl)| validator::ValidatorInfo { key: k.public(), weight: *w, leader: !*nl }).collect();
+            // positions are by key order in both schedules, so the abstraction stays valid
+            c.schedule = validator::Schedule::new(infos, validator::LeaderSelection { frequency: 1, mode: validator::LeaderSelectionMode::RoundRobin }).unwrap();
+            c.genesis = validator::GenesisRaw { chain_id: validator::ChainId(1337), fork_number: validator::ForkNumber(0), protocol_version: validator::ProtocolVersion::CURRENT, first_block: validator::BlockNumber(0), validators_schedule: Some(c.schedule.clone()) }.with_hash();
+        }
+        c
+    }
     pub fn n(&self) -> usize {
         self.keys.len()
     }
